@@ -413,9 +413,10 @@ def r7_every_advertised_cipher_considered(cx):
     # locals assigned under the control of the id switch (the Option<cipher>, the plain flag)
     seeds = {id_local}
     nsucc = len(cfg.succ[sb])
+    sb_succs = cfg.succ.get(sb, [])
     for b in cfg.reach:
-        ce = cfg.controlling_edges(b)
-        if any(e[1] == sb for e in ce):
+        # control-dependent on the id switch: b post-dominates one of its successors but not the switch itself
+        if any(cfg.postdominates(b, t) for t in sb_succs) and not (cfg.postdominates(b, sb) and b != sb):
             for st in rf.blocks[b]["stmts"]:
                 if st["k"] == "assign":
                     seeds.add(st["place"]["l"])
